@@ -502,6 +502,7 @@ public:
     if_constexpr_named(cond1, detail::is_fundamental_or_enum_v<T>)
     {
       auto val = impl().get_raw_value();
+      RLBOX_VERIF_YIELD("cv:fund:before-verifier", 0);
       return verifier(val);
     }
     else if_constexpr_named(
@@ -544,6 +545,7 @@ public:
           // Read the value through the tainted_volatile reference so that it
           // is loaded with the width and encoding of the sandbox's ABI
           *val_copy = (*impl()).get_raw_value();
+          RLBOX_VERIF_YIELD("cv:ptr:before-verifier", 0);
           return verifier(std::move(val_copy));
         }
       }
@@ -552,6 +554,7 @@ public:
       cond3, detail::is_one_level_ptr_v<T> && std::is_class_v<T_Deref>)
     {
       auto val_copy = std::make_unique<tainted<T_Deref, T_Sbx>>(*impl());
+      RLBOX_VERIF_YIELD("cv:struct:before-verifier", 0);
       return verifier(std::move(val_copy));
     }
     else if_constexpr_named(cond4, std::is_array_v<T>)
@@ -563,6 +566,7 @@ public:
         "individually --- a[i].copy_and_verify(...)");
 
       auto copy = impl().get_raw_value();
+      RLBOX_VERIF_YIELD("cv:array:before-verifier", 0);
       return verifier(copy);
     }
     else
@@ -617,6 +621,7 @@ private:
     auto target = std::make_unique<T_CopyAndVerifyRangeEl[]>(count);
 
     for (size_t i = 0; i < count; i++) {
+      RLBOX_VERIF_YIELD("range:elem", i);
       // Read each element through its tainted_volatile reference so that it is
       // loaded with the width and encoding of the sandbox's ABI
       target[i] = impl()[i].get_raw_value();
@@ -649,6 +654,7 @@ public:
 
     std::unique_ptr<T_CopyAndVerifyRangeEl[]> target =
       copy_and_verify_range_helper(count);
+    RLBOX_VERIF_YIELD("range:before-verifier", count);
     return verifier(std::move(target));
   }
 
@@ -686,12 +692,14 @@ public:
       // sandbox however, copy_and_verify_range ensures that we never copy
       // memory outsider the range
       auto str_len = std::strlen(start) + 1;
+      RLBOX_VERIF_YIELD("string:after-strlen", str_len);
       std::unique_ptr<T_CopyAndVerifyRangeEl[]> target =
         copy_and_verify_range_helper(str_len);
 
       // ensure the string has a trailing null
       target[str_len - 1] = '\0';
 
+      RLBOX_VERIF_YIELD("string:before-verifier", str_len);
       return verifier(std::move(target));
     }
     else if_constexpr_named(cond2, std::is_same_v<T_VerifParam, std::string>)
@@ -706,14 +714,17 @@ public:
       // sandbox however, copy_and_verify_range ensures that we never copy
       // memory outsider the range
       auto str_len = std::strlen(start) + 1;
+      RLBOX_VERIF_YIELD("string:after-strlen", str_len);
 
       const char* checked_start = (const char*)verify_range_helper(str_len);
+      RLBOX_VERIF_YIELD("string:after-check", str_len);
       if (checked_start == nullptr) {
         std::string param = "";
         return verifier(param);
       }
 
       std::string copy(checked_start, str_len - 1);
+      RLBOX_VERIF_YIELD("string:before-verifier", str_len);
       return verifier(std::move(copy));
     }
     else
